@@ -60,7 +60,7 @@ def gen_tree(rng, prefix, depth, fanout, budget, classes, sizes, stats=None, all
 
 
 def basic_project(rng, cid, tier, classes=None, stats=None, n_stages=None, allow_skip=True, allow_norec=True,
-                  allow_inputs=True):
+                  allow_inputs=True, dir_inputs=False):
     """A project with 1-3 independent stages: directory / file / non-recursive / skip-cache outputs,
     plain file inputs."""
     thorough = tier == "thorough"
@@ -98,6 +98,14 @@ def basic_project(rng, cid, tier, classes=None, stats=None, n_stages=None, allow
             p = b"src/in%d.txt" % s
             init.append(("file", p, "g:%d:%d" % (rng.randrange(1000), rng.choice(sizes[:6]))))
             ins.append((p, ""))
+        if dir_inputs and rng.random() < 0.35:
+            p = b"src/indir%d" % s
+            init += [("dir", p), ("file", p + b"/one.txt", "g:%d:9" % rng.randrange(1000)), ("file", p + b"/two.txt", "g:%d:70000" % rng.randrange(1000))]
+            ins.append((p, "d"))
+        if dir_inputs and rng.random() < 0.25:
+            p = base + b"_skipdir"
+            init += [("dir", p), ("file", p + b"/kept.txt", "g:%d:11" % rng.randrange(1000))]
+            outs.append((p, "ds"))
         sp = (b"stage%d.yaml" % s) if rng.random() < 0.6 else (b"stages/s%d.yaml" % s)
         stages.append((sp, dict(cmd=b"", wd=b".", out=outs, **({"in": ins} if ins else {}))))
     case = dict(id=cid, init=init, stages=stages, ops=[])
